@@ -324,9 +324,13 @@ package interp
 //@   loop "for action := l.lexToken; action != nil;" unbounded driver of the state functions: each of them consumes input or ends the run; not expressed as one variant
 //@ func (*lexer).run$1
 //@   recovers bailout
+// The token channel has no buffer: the lexer is never more than one token
+// ahead of the parser, so nothing lexed after a fault reaches the parser
+// (no assignment after the first error, and the first error is the one kept).
 //@ func newLexer
 //@   requires env != nil && r != nil
 //@   ensures result != nil
+//@   ensures[C11] tokens-are-handed-over-one-at-a-time: chancap(result.token) == 0
 
 // os.Environ yields "key=value" strings, none of them empty.
 //@ func NewExecEnv
